@@ -61,7 +61,11 @@ def run(tier, acc):
     acc.rule = ("inputs: valid generated programs (every sigil) and shipped programs, every kind of single-token deletion / duplication / "
                 "adjacent swap and truncations at byte offsets of them, token soup over the language's keywords and delimiters, random "
                 "bytes and random serialisation prefixes, REPL lines whose parenthesis count differs from their structure, nesting up to "
-                "200; each input goes to 11 entry points (compile, assemble, disassemble, deserialise, brun, run, cldb, preprocess -E, "
+                "200; programs with include files of every degenerate kind (empty, comment-only, unbalanced, binary, including "
+                "themselves or each other) reached by include and the three kinds of embed-file; compile-time code that does not "
+                "terminate (defmac / defmacro / constant bodies); applied path atoms of every sign and width; source texts whose "
+                "columns and bytes part ways (tabs, wide characters) under the debugger with the source at hand (entry cldb-file); "
+                "k constant calls per helper body in 1..3 helpers under five dialects; each input goes to 11 entry points (compile, assemble, disassemble, deserialise, brun, run, cldb, preprocess -E, "
                 "dependency listing, unused-argument check, REPL) in a worker child process under catch_unwind and a 30 s limit. "
                 "Trace_ToolProtocol (TLC) evaluates: no panic / abort / timeout, and every located error of the modern compiler names "
                 "the input or a built-in pseudo-file and lies within that text (LocWithin). non-trivial = distinct (entry, input)")
@@ -77,7 +81,7 @@ def replay(path):
         print("replay: not an input-level record")
         return 0
     import subprocess
-    p = subprocess.run(["timeout", "60", core.VH, "job", json.dumps({"op": "frontend", "entry": v["entry"], "bytes": v["bytes"], "scratch": core.BUILD})],
+    p = subprocess.run(["timeout", "60", core.VH, "job", json.dumps({"op": "frontend", "entry": v["entry"], "bytes": v["bytes"], "scratch": core.BUILD, "files": v.get("files", {})})],
                        stdout=subprocess.PIPE, stderr=subprocess.PIPE, text=True)
     out = p.stdout.strip().splitlines()[-1] if p.stdout.strip() else ""
     if p.returncode != 0 or '"panic"' in out:
